@@ -186,6 +186,12 @@ class StmtMixin:
             if len(res) != 1:
                 raise Unsupported("forking subscript target", target)
             base, idx = res[0][1]
+            if isinstance(base, VOpt):
+                base = self.unopt(base, st, target, "subscripted target")
+            if self.is_dict(base, st):
+                obj = st.heap[base.oid]
+                obj.fields["entries"] = VTuple(obj.fields["entries"].elems + [VTuple([idx, v])])
+                return
             payload = self.deref(base, st)
             if isinstance(base, VRef) and isinstance(payload, VSeq):
                 j = self.norm_index(payload, self.deref(idx, st), st, target, "store")
